@@ -11,6 +11,7 @@ pid, mk = sys.argv[1], sys.argv[2]
 src = "/tmp/seed/out"
 if "--src" in sys.argv:
     src = sys.argv[sys.argv.index("--src") + 1]
+tag = sys.argv[sys.argv.index("--tag") + 1] if "--tag" in sys.argv else ""
 d = os.path.join(src, pid, mk)
 tmp = tempfile.mkdtemp(prefix="vfseed-")
 tree = os.path.join(tmp, "repo")
@@ -28,10 +29,10 @@ try:
     suite_line = suite.stdout.strip().splitlines()[-1] if suite.stdout.strip() else "?"
     mut = run([PY, os.path.join(d, "demo.py")], cwd="/tmp", env=env, timeout=900)
     ok = clean.returncode == 0 and mut.returncode != 0 and suite.returncode == 0
-    print(f"{pid}-{mk}: demo clean={clean.returncode} mutated={mut.returncode} suite='{suite_line}' -> {'KEEP' if ok else 'REJECT'}")
+    print(f"{pid}-{tag}{mk}: demo clean={clean.returncode} mutated={mut.returncode} suite='{suite_line}' -> {'KEEP' if ok else 'REJECT'}")
     if not ok:
         print(clean.stdout[-300:], clean.stderr[-300:]); sys.exit(1)
-    dst = f"/verif/seeded/{pid}-{mk}"
+    dst = f"/verif/seeded/{pid}-{tag}{mk}"
     os.makedirs(dst, exist_ok=True)
     shutil.copy(os.path.join(d, "patch.diff"), dst); shutil.copy(os.path.join(d, "demo.py"), dst)
     meta = json.load(open(os.path.join(d, "meta.json")))
